@@ -378,7 +378,7 @@ std::string removeSubstrings(const std::string& s,
         {
           std::size_t left = i - pos;
           std::size_t right = i + exceptionsBeginning[j].length() - pos;
-          if ((right < s.length() - 1) && (hasSubstring(s.substr(left, right), exceptionsBeginning[j])))
+          if ((pos <= i) && (right < s.length() - 1) && (hasSubstring(s.substr(left, right), exceptionsBeginning[j])))
           {
             except = true;
             break;
@@ -400,7 +400,7 @@ std::string removeSubstrings(const std::string& s,
         {
           std::size_t left = i - pos;
           std::size_t right = i + exceptionsEnding[j].length() - pos;
-          if ((right < s.length() - 1) && (hasSubstring(s.substr(left, right), exceptionsEnding[j])))
+          if ((pos <= i) && (right < s.length() - 1) && (hasSubstring(s.substr(left, right), exceptionsEnding[j])))
           {
             break;
           }
